@@ -236,16 +236,46 @@ def check_case(case, ctx):
 
     # ---- the same block read from a caller-opened file object that is positioned at the block, not at offset 0 --------
     ctx.mon("fileobject.position")
-    for prefix in (b"", tlv.ptr(7, b"AAAA") * (1 + len(block) % 3)):
-        fobj = io.BytesIO(prefix + block)
+    kinds = [("bytesio", b""), ("bytesio", tlv.ptr(7, b"AAAA") * (1 + len(block) % 3))]
+    if block:
+        kinds.append(("mmap", tlv.ptr(7, b"AAAA") * (len(block) % 2)))
+    bufsize = 64
+    if len(block) % 4 == 0:
+        # a real file behind a small BufferedReader; where the block has a terminator the buffer is sized so that the
+        # terminator's first byte is the last byte of the first buffer fill
+        off_term = sum(6 + len(r[3]) for r in ref)
+        if block[off_term : off_term + 2] == b"\0\0" and off_term + 1 >= 16:
+            bufsize = off_term + 1
+        kinds.append(("buffered64", tlv.ptr(7, b"AAAA")))
+    for fkind, prefix in kinds:
+        tmp = None
+        if fkind == "mmap":
+            import mmap
+
+            fobj = mmap.mmap(-1, len(prefix + block))
+            fobj.write(prefix + block)
+        elif fkind == "buffered64":
+            import os
+            import tempfile
+
+            fd, tmp = tempfile.mkstemp(prefix="vf_c02_")
+            os.write(fd, prefix + block)
+            os.close(fd)
+            fobj = open(tmp, "rb", buffering=bufsize)
+        else:
+            fobj = io.BytesIO(prefix + block)
         fobj.seek(len(prefix))
         try:
             from_file = [(x.index.value, x.type.value, x.length, x.value) for x in beacon.iter_settings(fobj)]
         except Exception as e:  # noqa: BLE001
-            ctx.violation("fileobject.position", f"iter_settings(file object at {len(prefix)}) raised {type(e).__name__}: {e}", case)
+            ctx.violation("fileobject.position", f"iter_settings({fkind} file object at {len(prefix)}) raised {type(e).__name__}: {e}", case)
             return
+        finally:
+            fobj.close()
+            if tmp:
+                os.unlink(tmp)
         if from_file != ref:
-            ctx.violation("fileobject.position", f"iter_settings(file object positioned at {len(prefix)}) decodes {core.short(from_file[:3])}, "
+            ctx.violation("fileobject.position", f"iter_settings({fkind} file object positioned at {len(prefix)}) decodes {core.short(from_file[:3])}, "
                           f"the same bytes as a byte string {core.short(ref[:3])}", case)
             return
 
